@@ -82,7 +82,12 @@ func cmdVerify(args []string) {
 	dump := fs.String("dump", "", "directory to keep SMT files")
 	verbose := fs.Bool("v", false, "verbose")
 	extra := fs.String("contracts", "", "extra contract files (comma separated)")
+	pkgsFlag := fs.String("pkgs", "", "package patterns (comma separated; default litestream set)")
 	fs.Parse(args)
+	patterns := defaultPatterns
+	if *pkgsFlag != "" {
+		patterns = strings.Split(*pkgsFlag, ",")
+	}
 	t0 := time.Now()
 	e := newEngine(*repo)
 	if err := e.loadSpecDir(*specs); err != nil {
@@ -97,7 +102,7 @@ func cmdVerify(args []string) {
 			}
 		}
 	}
-	if err := e.load(defaultPatterns, *tags, nil); err != nil {
+	if err := e.load(patterns, *tags, nil); err != nil {
 		fmt.Fprintln(os.Stderr, "ERROR", err)
 		os.Exit(2)
 	}
